@@ -66,9 +66,11 @@ namespace
         K_write_pre,  // write into the fence before the node
         K_write_post, // write into the fence after the node
         K_write_edges,
+        K_fill_pre,  // overwrite a run of the fence before the node (possibly all of it) with one value
+        K_fill_post, // the same behind the node
         K__count
     };
-    const char* names[K__count] = {"write_in", "write_pre", "write_post", "write_edges"};
+    const char* names[K__count] = {"write_in", "write_pre", "write_post", "write_edges", "fill_pre", "fill_post"};
 
     template <class A>
     Verdict run_one(const char* aname, const Program& p, CaseInfo& ci)
@@ -121,7 +123,7 @@ namespace
                     break;
                 }
         long lowest_pre = 1, lowest_post = -1; // offsets relative to node / node+bytes
-        bool touched_first = false, touched_last = false, off_edge = false, deep = false;
+        bool touched_first = false, touched_last = false, off_edge = false, deep = false, whole_fence = false;
         size_t cap = std::is_same<A, fm::virtual_memory_allocator>::value ? fm::virtual_memory_page_size : mxal;
         size_t Fpre = 0, Fpost = 0;
         if (v.ok && F)
@@ -173,6 +175,38 @@ namespace
                         if (lowest_post < 0 || off < lowest_post)
                             lowest_post = off;
                         off_edge |= off != 0;
+                    }
+                    else
+                        ++ci.noops;
+                    break;
+                case K_fill_pre:
+                    if (F && val != 0xFD && Fpre)
+                    {
+                        // run [node - first - len, node - first): op.b % 3 == 0 covers the whole fence
+                        size_t len   = op.b % 3 == 0 ? Fpre : 1 + op.a % Fpre;
+                        size_t first = op.b % 3 == 0 ? 0 : (op.a / 7) % (Fpre - len + 1);
+                        std::memset(node - first - len, int(val), len);
+                        long lo = -long(first + len);
+                        if (lowest_pre > 0 || lo < lowest_pre)
+                            lowest_pre = lo;
+                        off_edge = true;
+                        deep |= first + len > F;
+                        whole_fence |= len == Fpre;
+                    }
+                    else
+                        ++ci.noops;
+                    break;
+                case K_fill_post:
+                    if (F && val != 0xFD && Fpost)
+                    {
+                        size_t len   = op.b % 3 == 0 ? Fpost : 1 + op.a % Fpost;
+                        size_t first = op.b % 3 == 0 ? 0 : (op.a / 7) % (Fpost - len + 1);
+                        std::memset(node + bytes + first, int(val), len);
+                        if (lowest_post < 0 || long(first) < lowest_post)
+                            lowest_post = long(first);
+                        off_edge = true;
+                        deep |= first + len > F;
+                        whole_fence |= len == Fpost;
                     }
                     else
                         ++ci.noops;
@@ -232,6 +266,8 @@ namespace
             ci.classes.insert("array");
         if (deep)
             ci.classes.insert("beyond-debug_fence_size");
+        if (whole_fence)
+            ci.classes.insert("whole-fence-one-value");
         ci.counters["reports"] += reports.size();
         return v;
     }
@@ -248,7 +284,8 @@ namespace
                 return false;
             out.nparams = 6;
             out.max_ops = 24;
-            out.kinds   = {{names[0], 6}, {names[1], F ? 3u : 0u}, {names[2], F ? 3u : 0u}, {names[3], 2}};
+            out.kinds   = {{names[0], 6}, {names[1], F ? 3u : 0u}, {names[2], F ? 3u : 0u}, {names[3], 2},
+                           {names[4], F ? 2u : 0u}, {names[5], F ? 2u : 0u}};
             out.rule    = "a case that corrupts a fence at an offset other than the byte adjacent to the node, "
                           "or an in-bounds write set touching both the first and the last byte of the node";
             return true;
